@@ -149,8 +149,13 @@ class World:
         from skepticoin.consensus import construct_block_for_mining
         from skepticoin.signing import SECP256k1PublicKey
         self.counters["blocks_real_route"] += 1
-        real = construct_block_for_mining(self.state_at(parent_id), [bridge.rtx_to_real(t) for t in rtxs],
-                                          SECP256k1PublicKey(miner_pk), ts, data, rb.nonce)
+        try:
+            real = construct_block_for_mining(self.state_at(parent_id), [bridge.rtx_to_real(t) for t in rtxs],
+                                              SECP256k1PublicKey(miner_pk), ts, data, rb.nonce)
+        except Exception as e:
+            # the code under test cannot even assemble on this parent: note it, use the reference-built block instead
+            REFUSALS.append("assembly failed: %s: %s" % (type(e).__name__, str(e)[:60]))
+            return rb, bridge.rblock_to_real(rb)
         return rb, real
 
     def accept(self, rb, real, cs=None, validate=True, now=None):
